@@ -1,4 +1,6 @@
 import ComposeVerif.Model.Str
+import ComposeVerif.Model.Template
+import ComposeVerif.Spec.Template
 /-!
 # Model of the service environment / label layering (C16)
 
@@ -7,8 +9,10 @@ Mirrors the code that exists:
 * `types.MappingWithEquals.OverrideBy / Resolve`, `types.Mapping.Resolve` (types/mapping.go),
 * `types.Project.WithServicesEnvironmentResolved`, `WithServicesLabelsResolved`,
   `loadEnvFile`, `loadLabelFile`, `loadMappingFile` (types/project.go),
-* `dotenv.ParseWithLookup` restricted to *already tokenised simple lines*
-  (`KEY=<literals and ${REF}s>`, bare `KEY`, one rejected line) — the lexical grammar is C18's;
+* `dotenv.ParseWithLookup` on *tokenised lines*: `KEY=<template>` where the value is an AST of the Compose
+  interpolation grammar (C07: literals, `$$`, `$NAME`, `${NAME}`, `${NAME<op>arg}`) evaluated by C07's model of
+  `template.Substitute` on its rendering, bare `KEY`, one rejected line.  The lexical grammar is C18's
+  (`Props/C16.parseLines_is_dotenv_parse` ties the tokens to C18's model run on the rendered text);
   what is modelled here is the **lookup chain**: `expandVariables` asks the caller's lookup
   first and the lines already parsed in this file second; a bare `KEY` asks the lookup only,
 * `dotenv.ParseWithFormat` with the (empty) format registry of the library,
@@ -55,31 +59,34 @@ def ofMWE (m : List (Key × Option Str)) : List (Key × Str) :=
 
 /-! ## env / label files as tokenised lines -/
 
-inductive Seg
-  | lit (s : Str)      -- literal text (no `$`, quote, `#`, backslash, space, newline)
-  | ref (name : Key)   -- `${name}`
-deriving Repr, DecidableEq
+/-- the value of an assignment: a template of the Compose interpolation grammar (C07's AST: literals, `$$`, `$NAME`,
+    `${NAME}`, `${NAME<op>arg}`); the text the dotenv parser hands to `template.Substitute` is its rendering.
+    Literals contain no quote, `#`, backslash, white space or newline (dotenv lexing is C18's). -/
+abbrev Seg := CV.Template.Seg
 
 inductive Line
-  | assign (k : Key) (v : List Seg)   -- `k=<v>`
+  | assign (k : Key) (v : List Seg)   -- `k=<rendering of v>`
   | bare (k : Key)                    -- `k`      (inherited from the lookup)
   | bad                               -- a line the dotenv parser rejects (`A B=1`)
-deriving Repr, DecidableEq
+deriving Repr
 
 inductive Err
   | notFound   -- "env file … not found" / "label file … not found"
   | format     -- "unsupported env_file format"
   | parse      -- dotenv syntax error
   | read       -- the path exists but cannot be read as a file (a directory)
+  | template   -- `template.Substitute` failed on a value: invalid template or `${X:?msg}` / `${X?msg}` unsatisfied
+  | panic      -- `template.Substitute` would panic (shown unreachable: `Props/C16.no_panic`)
 deriving Repr, DecidableEq
 
 abbrev Look := Key → Option Str
 
-/-- `template.Substitute` on a tokenised value: an unset `${name}` is the empty string -/
-def evalSegs (look : Look) : List Seg → Str
-  | [] => []
-  | .lit s :: r => s ++ evalSegs look r
-  | .ref n :: r => (look n).getD [] ++ evalSegs look r
+/-- `expandVariables`: `template.Substitute` (C07's model) on the text of the value -/
+def evalValue (look : Look) (v : List Seg) : Except Err Str :=
+  match CV.Template.subst look (CV.Template.renderL v) with
+  | .ok s => .ok s
+  | .err _ => .error .template
+  | .panic _ => .error .panic
 
 /-- the mapping `expandVariables` hands to `template.Substitute`: caller's lookup first,
     then the lines of this file parsed so far -/
@@ -91,7 +98,10 @@ def withFile (look : Look) (out : List (Key × Str)) : Look :=
 /-- `parser.parse` over tokenised lines, `out` = the map filled so far -/
 def parseLines (look : Look) : List Line → List (Key × Str) → Except Err (List (Key × Str))
   | [], out => .ok out
-  | .assign k v :: r, out => parseLines look r (insert k (evalSegs (withFile look out) v) out)
+  | .assign k v :: r, out =>
+    match evalValue (withFile look out) v with
+    | .ok val => parseLines look r (insert k val out)
+    | .error e => .error e
   | .bare k :: r, out =>
     match look k with
     | some v => parseLines look r (insert k v out)
@@ -101,9 +111,9 @@ def parseLines (look : Look) : List Line → List (Key × Str) → Except Err (L
 inductive Node
   | file (ls : List Line)
   | dir
-  | notdir   -- nothing exists at the path because a *parent* is a regular file: `os.Stat` fails with ENOTDIR,
-             -- which `os.IsNotExist` does not recognise
-deriving Repr, DecidableEq
+  | notdir   -- nothing exists at the path because a *parent* is a regular file: `os.Stat` fails with ENOTDIR
+             -- (`fileIsMissing` treats it like ENOENT since the `fix:` commit; before, `os.IsNotExist` did not)
+deriving Repr
 
 abbrev FS := Str → Option Node
 
@@ -125,16 +135,18 @@ def loadMappingFile (fs : FS) (path format : Str) (look : Look) : Except Err (Li
     if format ≠ [] then .error .format
     else parseLines look ls []
 
-/-- `loadEnvFile`: a missing file is an error only when required -/
+/-- `loadEnvFile`: a missing file (`fileIsMissing`: ENOENT or ENOTDIR) is an error only when required -/
 def loadEnvFile (fs : FS) (f : EnvFile) (look : Look) : Except Err (List (Key × Str)) :=
   match fs f.path with
   | none => if f.required then .error .notFound else .ok []
+  | some .notdir => if f.required then .error .notFound else .ok []
   | some _ => loadMappingFile fs f.path f.format look
 
 /-- `loadLabelFile`: a missing file is always an error -/
 def loadLabelFile (fs : FS) (path : Str) (look : Look) : Except Err (List (Key × Str)) :=
   match fs path with
   | none => .error .notFound
+  | some .notdir => .error .notFound
   | some _ => loadMappingFile fs path [] look
 
 /-- the `resolve` closure of `WithServicesEnvironmentResolved`: files parsed so far, then the project environment -/
